@@ -131,7 +131,8 @@ def d3_scale_linearTicks(domain, m):
 def d3_scale_linearTickFormat(domain, m, fmt=None):
     therange = d3_scale_linearTickRange(domain, m)
     # format not None is not implemented
-    decimals = max(0, d3_scale_linearPrecision(therange[2]))
+    # a degenerate domain has a zero tick step (and no ticks): nothing to print
+    decimals = max(0, d3_scale_linearPrecision(therange[2])) if therange[2] else 0
     fmt = "." + str(decimals) + "f"
     fmtstr = "{:%s}" % fmt
     return lambda x: fmtstr.format(x)
